@@ -449,6 +449,11 @@ def _deref(I, info, args):
         return inner if isinstance(inner, Ptr) else p
     if sh == 'PathBuf':
         return p
+    if sh == 'Cow':
+        # Cow<str> / Cow<[T]>: both variants dereference to the borrowed form
+        if isinstance(inner, Adt) and inner.ty == 'Cow':
+            return inner.fields[0]
+        return inner
     if sh == 'RefMulti':
         return Ptr(Cell(inner.fields[1])) if not isinstance(inner.fields[1], Ptr) else inner.fields[1]
     if sh == 'WithCtx':
@@ -2493,6 +2498,21 @@ def _path_to_path_buf(I, info, args):
     return _mk_path(_path_str(I, args[0]))
 
 
+@path(('str', 'split'), ('str', 'rsplit'))
+def _str_split(I, info, args):
+    s = as_str(I, args[0])
+    p = deref(args[1])
+    if isinstance(p, int):
+        p = StrV(chr(p))
+    p = as_str(I, p)
+    if s.concrete() and p.concrete() and p.s:
+        parts = s.s.split(p.s)
+        if info['segs'][-1] == 'rsplit':
+            parts = parts[::-1]
+        return iter_values(I, [StrV(x) for x in parts])
+    raise Unsupported('symbolic str::split')
+
+
 @path(('str', 'split_once'), ('str', 'rsplit_once'))
 def _split_once(I, info, args):
     s = as_str(I, args[0])
@@ -2595,6 +2615,15 @@ def _ord_val(v):
 
 
 def _cmp(I, a, b, op):
+    da, db = deref(a), deref(b)
+    if isinstance(da, StrV) or isinstance(db, StrV) or (isinstance(da, Adt) and da.ty in ('Atom', 'JsWord', 'String')):
+        # strings order byte-wise (lexicographically); symbolic strings use the solver's lexicographic order
+        sa, sb = as_str(I, da), as_str(I, db)
+        if sa.concrete() and sb.concrete():
+            x, y = sa.s.encode('utf8'), sb.s.encode('utf8')
+            return {'lt': x < y, 'le': x <= y, 'gt': x > y, 'ge': x >= y}[op]
+        za, zb = sa.z(), sb.z()
+        return {'lt': za < zb, 'le': za <= zb, 'gt': zb < za, 'ge': zb <= za}[op]
     a, b = _ord_val(a), _ord_val(b)
     if isinstance(a, int) and isinstance(b, int):
         return {'lt': a < b, 'le': a <= b, 'gt': a > b, 'ge': a >= b}[op]
